@@ -214,6 +214,27 @@ fn walked_positions(rel: Rel) -> &'static [usize] {
     }
 }
 
+/// true when the term is a list whose length is fixed as written (elements may be variables)
+fn closed_length(t: &T) -> bool {
+    match t {
+        T::Nil => true,
+        T::Cons(_, tl) => closed_length(tl),
+        _ => false,
+    }
+}
+
+/// Modes in which a fixed-length list bounds every derivation of the relation.
+fn bounded_mode(rel: Rel, a: &[T]) -> bool {
+    match rel {
+        Rel::Append => closed_length(&a[0]) || closed_length(&a[2]),
+        Rel::Member | Rel::Member1 => closed_length(&a[1]),
+        Rel::Rember => closed_length(&a[1]),
+        Rel::Distinct | Rel::Empty => closed_length(&a[0]),
+        Rel::ConsR | Rel::First | Rel::Rest => true,
+        Rel::Permute => closed_length(&a[0]),
+    }
+}
+
 /// false when the term as written cannot be instantiated to a proper list
 fn can_be_list(t: &T) -> bool {
     match t {
@@ -368,6 +389,16 @@ fn check(c: &RelCase, index: usize) -> (Vec<Violation>, &'static str) {
                 viols.push(mk("answer-count", format!("{} answers, expected {} ({})", out.answers.len(), expected, if c.rel == Rel::Member { "one per matching position" } else { "one per distinct matching value" }), String::new()));
             }
         }
+    }
+    // --- finite failure: in a mode whose answer set is finite because a list of closed length
+    // bounds the recursion, the search has to END (a relation that has given all its answers and
+    // then searches forever never says "no more", and never says "no" when there is none)
+    if !finite && out.end != End::Limit && bounded_mode(c.rel, &c.args) {
+        viols.push(mk(
+            "no-termination",
+            format!("{} has finitely many answers in this mode (a list of fixed length bounds it) but the search did not end within {} engine steps ({} answers so far)", sig, 400_000, out.answers.len()),
+            String::new(),
+        ));
     }
     let _ = Ans::to_string;
     (viols, if finite { "terminating-mode" } else { "non-terminating-mode" })
